@@ -1,6 +1,8 @@
 package keeper
 
 import (
+	"strings"
+
 	saodid "github.com/SaoNetwork/sao-did"
 	sid "github.com/SaoNetwork/sao-did/sid"
 	saodidtypes "github.com/SaoNetwork/sao-did/types"
@@ -15,6 +17,21 @@ type ProposalApi interface {
 	Marshal() (dAtA []byte, err error)
 }
 
+// isVersionOfSid reports whether versionId is one of the key document versions recorded for
+// the sid DID did.
+func (k Keeper) isVersionOfSid(ctx sdk.Context, did string, versionId string) bool {
+	versions, found := k.did.GetSidDocumentVersion(ctx, strings.TrimPrefix(did, "did:sid:"))
+	if !found {
+		return false
+	}
+	for _, v := range versions.VersionList {
+		if v == versionId {
+			return true
+		}
+	}
+	return false
+}
+
 func (k Keeper) verifySignature(ctx sdk.Context, owner string, proposal ProposalApi, jwsSignature types.JwsSignature) (string, error) {
 	proposalBytes, err := proposal.Marshal()
 	if err != nil {
@@ -22,6 +39,11 @@ func (k Keeper) verifySignature(ctx sdk.Context, owner string, proposal Proposal
 	}
 
 	var querySidDocument = func(versionId string) (*sid.SidDocument, error) {
+		// the key document must be a version of the owner's own sid: the version id comes
+		// from the signature header, i.e. from whoever signed
+		if !k.isVersionOfSid(ctx, owner, versionId) {
+			return nil, nil
+		}
 		doc, found := k.did.GetSidDocument(ctx, versionId)
 		if found {
 			var keys = make([]*sid.PubKey, 0)
